@@ -79,3 +79,7 @@ PROPS["C15"] = dict(
     level_text="Heap-level model (buffers + slice references) of extendedkey.go with a disjointness invariant over all operation histories and an erasure theorem for Zero; every run replays random histories (NewMaster/NewKeyFromString/Child/Neuter/SetNet/Zero/accessors over a pool of keys) on the real code, comparing every key's serialisation after every step and the *overlap relation between the real slices' address ranges* (hook VerifFieldRanges) with the model's.",
     level_note=_hd_note + " Memory addresses are read through the verif hook; version slices alias immutable global tables and are excluded from the overlap relation.",
     assumptions=COMMON_ASSUME)
+PROPS["C08"] = dict(
+    level_text="Totality by construction: every modelled entry point is a total Lean function whose only failure mode is an explicit error value (Go panics are checked primitives), with no_fault theorems per entry point; every run sweeps the near-valid and malformed streams of all parsers (valid checksums over degenerate content, empty bit arrays, extreme counts, heterogeneous JSON, truncated blocks) against the real code under a wall-clock limit and an allocation budget proportional to the input.",
+    level_note="Trusted: Lean kernel + standard axioms. PARTIAL for the runtime clauses: termination/time and memory are properties of the Go runtime; the model proves fault-freedom and step bounds of the modelled logic, the harness measures time (20 s/case limit) and TotalAlloc (64 MiB + 4 KiB per input char). External decoders (wire, encoding/json, OpenBazaar jsonpb) are not modelled, only exercised.",
+    assumptions=COMMON_ASSUME)
